@@ -331,6 +331,8 @@ def main(argv):
         lines.append(f"KNOWN-FINDING: property={prop} {kf['obligation']} {kf['what']}")
     # a listed finding that no longer fails is reported (not an error): the list is never edited at run time
     for kf in known:
+        if kf.get("tier") == "thorough" and tier != "thorough":
+            continue
         if kf["obligation"] not in seen_k:
             lines.append(f"NOTE: known finding no longer reproduces: {kf['obligation']}")
 
